@@ -54,6 +54,7 @@ CONSTANTS Pats,        \* route patterns usable in builder calls
           MaxCalls,    \* bound on the number of builder calls
           MaxRoutes,   \* bound on the routes of one sub-app
           MaxHosts,    \* bound on attached host sub-apps
+          MaxCorsCalls,\* bound on the calls that carry a Cors value (with_cors / with_cors_config)
           FullApi,     \* TRUE: threaded App (has with_default_subapp)
           ReqMethods, ReqHosts, ReqPaths,   \* request space evaluated by the invariants ("" = no Host header)
           Dev
@@ -250,7 +251,10 @@ WithinBounds(a) == /\ Len(a.def.routes) <= MaxRoutes /\ Len(a.pend.routes) <= Ma
                    /\ Len(a.hosts) <= MaxHosts
 \* state-level pieces of one builder step (kept primeless so that TLC attributes coverage to the named actions)
 After(cl)   == Apply(app, cl, Len(calls) + 1)
-CanDo(cl)   == Len(calls) < MaxCalls /\ Enabled(app, cl) /\ WithinBounds(After(cl))
+CorsCalls   == Cardinality({k \in DOMAIN calls : calls[k].cors # <<>>})
+CanDo(cl)   == /\ Len(calls) < MaxCalls
+               /\ cl.cors # <<>> => CorsCalls < MaxCorsCalls
+               /\ Enabled(app, cl) /\ WithinBounds(After(cl))
 Stamped(cl) == Append(calls, [op |-> cl.op, pat |-> cl.pat, hk |-> cl.hk, hp |-> cl.hp, cors |-> cl.cors,
                               sid |-> TargetSid(app, cl)])
 
